@@ -56,7 +56,8 @@ BATCH_VARS = [("res_bus", "vm_pu"), ("res_bus", "va_degree"), ("res_line", "load
               ("res_line", "i_from_ka"), ("res_line", "i_to_ka"), ("res_trafo", "loading_percent"),
               ("res_trafo", "i_hv_ka"), ("res_trafo", "i_lv_ka"), ("res_trafo3w", "loading_percent"),
               ("res_trafo3w", "i_hv_ka"), ("res_trafo3w", "i_mv_ka")]
-TEMPLATES = [("feeder", 4), ("case9", 3), ("four_bus", 2), ("cigre_mv", 2), ("feeder_t3w", 2), ("feeder_taptable", 1)]
+TEMPLATES = [("feeder", 4), ("case9", 3), ("four_bus", 2), ("cigre_mv", 2), ("feeder_t3w", 2), ("feeder_taptable", 1),
+             ("feeder_dcline", 2), ("case9_dcline", 1), ("feeder_all", 1)]
 
 
 def warm():
